@@ -642,7 +642,7 @@ impl Prop for C01 {
         vec![Leg {
             name: "random",
             kind: LegKind::Random {
-                cases: tier.pick(1200, 12_000),
+                cases: tier.pick(12000, 100000),
             },
             workers: 16,
             build: Build::Normal,
